@@ -17,11 +17,13 @@ H = lambda b: bytes(b).hex() if len(b) else "-"
 
 
 def regen(ctx):
-    import x_c03, x_c03belt
+    import x_c03, x_c03belt, x_c03f32
     importlib.reload(x_c03)
     importlib.reload(x_c03belt)
+    importlib.reload(x_c03f32)
     ctx.regen("Bee2V/Gen/C03.lean", x_c03.generate())
     ctx.regen("Bee2V/Gen/C03Belt.lean", x_c03belt.generate())
+    ctx.regen("Bee2V/Gen/C03F32.lean", x_c03f32.generate())
 
 
 # ----------------------------------------------------------------------------- Python references (search oracle)
@@ -95,6 +97,8 @@ def gen_bashf(ctx):
         b = bytearray(b"\xff" * 192); b[8 * i:8 * i + 8] = bytes(8); ops.append("bashf " + H(b))
     for _ in range(n):
         ops.append("bashf " + H(rb(rng, 192)))
+    # the same blocks through the bash_f32.c MODEL (op bashf32; the library side is bashF of the configuration)
+    ops += ["bashf32 " + o.split()[1] for o in ops[:2] + ops[2:74:3] + ops[-12:]]
     return ops
 
 
@@ -326,9 +330,14 @@ def gen_botp(ctx):
 
 
 def suite_params(suite):
+    """the OCRA suite grammar of the standard (independent of the Lean model): None = not a valid suite"""
     import re as _re
-    m = _re.fullmatch(r"OCRA-1:HOTP-HBELT-(\d):(C-)?Q([ANH])(\d\d)(?:-P(HBELT|SHA1|SHA256|SHA512))?(?:-S(\d\d\d))?(?:-T(\d\d?)([SMH]))?", suite)
+    m = _re.fullmatch(r"OCRA-1:HOTP-HBELT-([4-9]):(C-)?Q([ANH])(\d\d)(?:-P(HBELT|SHA1|SHA256|SHA512))?(?:-S(\d\d\d))?(?:-T([1-9]\d?)([SMH]))?", suite)
     if not m:
+        return None
+    if not 4 <= int(m.group(4)) <= 64 or (m.group(6) and int(m.group(6)) > 512):
+        return None
+    if m.group(7) and int(m.group(7)) > {"S": 59, "M": 59, "H": 48}[m.group(8)]:
         return None
     return {"digit": int(m.group(1)), "ctr": bool(m.group(2)), "qmax": int(m.group(4)),
             "pl": {"HBELT": 32, "SHA1": 20, "SHA256": 32, "SHA512": 64}.get(m.group(5), 0),
@@ -420,7 +429,7 @@ def search(ctx, exe, op, c_out):
     try:
         if c_out.startswith("CRASH"):
             return True, kind + ":sanitizer", "the implementation aborts on this input: " + c_out[:200]
-        if kind == "bashf":
+        if kind in ("bashf", "bashf32"):
             ref = py_bashF(unh(w[1])).hex()
             if ref != c_out:
                 return True, "bashf:value", "bashF differs from bash-f of STB 34.101.77 (Python reference): expected " + ref[:64] + "…"
@@ -519,6 +528,15 @@ def search(ctx, exe, op, c_out):
                     return True, "botpTOTP:history", "TOTP request %d (%s): expected %s" % (i, t[:40], exp)
         elif kind == "ocras":
             return search_ocras(ctx, exe, w, c_out)
+        elif kind == "ocra":
+            # ocra <suite> <key> <q> <ctr> <p> <s> <t> <n>  ==  history S, n x R, G
+            sp = suite_params(unh(w[1]).decode("latin1"))
+            if (sp is None) != (c_out == "bad-format"):
+                return True, "botpOCRA:suite-grammar", "botpOCRAStart %s the suite %r, the grammar of the standard says %s" % (
+                    "rejects" if c_out == "bad-format" else "accepts", unh(w[1]).decode("latin1"), "valid" if sp else "invalid")
+            if sp is not None and c_out not in ("bad-params", "bad-op"):
+                hist = ["ocras", w[1], w[2], "S:%s:%s:%s" % (w[4], w[5], w[6])] + ["R:%s:%s" % (w[3], w[7])] * int(w[8])
+                return search_ocras(ctx, exe, hist, c_out)
         elif kind == "totp":
             ref = py_dt(int(w[1]), belt_hmac(ctx, exe, unh(w[2]), int(w[3]).to_bytes(8, "big")))
             if ref != c_out:
@@ -557,8 +575,11 @@ def search_hotps(ctx, exe, w, c_out):
 def search_ocras(ctx, exe, w, c_out):
     suite = unh(w[1]).decode("latin1")
     sp = suite_params(suite)
+    if (sp is None) != (c_out == "bad-format") and c_out != "bad-op":
+        return True, "botpOCRA:suite-grammar", "botpOCRAStart %s the suite %r, the grammar of the standard says %s" % (
+            "rejects" if c_out == "bad-format" else "accepts", suite, "valid" if sp else "invalid")
     if sp is None or c_out in ("bad-format", "bad-op"):
-        return False, "correspondence:ocras", "no independent oracle for rejected suites"
+        return False, "correspondence:ocras", "rejected suite, as the grammar says"
     key, outs, ctr, p, s_, oi = unh(w[2]), c_out.split(), 0, b"", b"", 0
 
     def pw(c, q, t):
@@ -747,7 +768,7 @@ def run(ctx):
     ctx.cov["configs"] = cfgs
     all_mism, distinct = [], set()
     have_driver = (not translator_error) and os.path.exists(ctx.driver())
-    f_ops = [o for o in ops if o.split()[0] in ("bashf", "hash", "prg")]
+    f_ops = [o for o in ops if o.split()[0] in ("bashf", "bashf32", "hash", "prg")]
     for cfg in cfgs:
         exe = ctx.cc("harness/c03.c", cfg)
         cfg_ops = f_ops if (cfg in fcfgs and ctx.tier == "quick") else ops
@@ -782,7 +803,15 @@ def run(ctx):
     ctx.samples.append({"theorem": "Bee2V.C03.bashF0_eq_spec",
                         "statement": "∀ s x, (bashF0 s)[x].toBitVec = Spec.bashF (fun y => s[y].toBitVec) x"})
     reported = set()
-    for cfg, exe, i, op, c, l in all_mism[:50]:
+    # at most 3 differing ops per (configuration, op kind), so that every configuration gets its oracle run
+    seen_grp, picked = {}, []
+    for m in all_mism:
+        g = (m[0], m[3].split()[0] if m[3] else "")
+        seen_grp[g] = seen_grp.get(g, 0) + 1
+        if seen_grp[g] <= 3:
+            picked.append(m)
+    picked.sort(key=lambda m: 0 if m[0] in fcfgs else 1)     # alternative bash-f builds first: the C differs there
+    for cfg, exe, i, op, c, l in picked[:60]:
         found, key, what = search(ctx, exe, op, c)
         if key in reported:
             continue
